@@ -19,11 +19,14 @@ Inductive obs :=
   | OOther.                                 (* any other exception, or a malformed result *)
 
 Record bcase := {
-  bc_sig : sig;
+  bc_def : fdef;         (* the def statement: default slots with the truthiness of their values *)
   bc_items : list citem;
   bc_ps : obs;           (* real AstEval *)
   bc_py : obs            (* CPython exec of the same source *)
 }.
+
+Definition bc_sig (c : bcase) : sig := ps_sig_of_def (bc_def c).      (* what eval_defaults hands to EvalFunc.call *)
+Definition bc_pysig (c : bcase) : sig := py_sig_of_def (bc_def c).   (* what the language reference says *)
 
 Definition obs_of (o : outcome) : obs :=
   match o with
@@ -58,10 +61,10 @@ Definition obs_eqb (a b : obs) : bool :=
 Definition bcase_model_ok (cfg : deviations) (c : bcase) : bool :=
   sig_wf_b (bc_sig c)
   && obs_eqb (obs_of (call_ps cfg TRIGGER_KWARGS (bc_sig c) (bc_items c))) (bc_ps c)
-  && obs_eqb (obs_of (call_py (bc_sig c) (bc_items c))) (bc_py c).
+  && obs_eqb (obs_of (call_py (bc_pysig c) (bc_items c))) (bc_py c).
 
 Definition bcase_spec_ok (c : bcase) : bool :=
-  obs_eqb (obs_of (call_spec TRIGGER_KWARGS (bc_sig c) (bc_items c))) (bc_ps c).
+  obs_eqb (obs_of (call_spec TRIGGER_KWARGS (bc_pysig c) (bc_items c))) (bc_ps c).
 
 (* Attribution of a Spec failure: a minimal set of the measured switches under which the Model still predicts what it
    predicts under all of them (greedy: D11 is dropped first if D30 alone suffices, then D30); the framework separately
@@ -77,5 +80,5 @@ Definition bcase_attrib (cfg : deviations) (c : bcase) : list nat :=
 
 Definition bcase_explain (cfg : deviations) (c : bcase) :=
   (obs_of (call_ps cfg TRIGGER_KWARGS (bc_sig c) (bc_items c)),
-   obs_of (call_py (bc_sig c) (bc_items c)),
-   obs_of (call_spec TRIGGER_KWARGS (bc_sig c) (bc_items c))).
+   obs_of (call_py (bc_pysig c) (bc_items c)),
+   obs_of (call_spec TRIGGER_KWARGS (bc_pysig c) (bc_items c))).
